@@ -29,10 +29,11 @@ Definition check_ref_old (c : group * string * bool * list str * option str * pa
   let '(root, attr, strict, rp, coords, a, obs) := c in
   ostr_eqb (model_attr false root attr strict rp coords a) obs.
 
-(* ---- the name maps: (is_dim, group path, name, observed flattened name, observed absolute path) *)
+(* ---- the name maps: (is_dim, group path, name, observed flattened name, observed absolute path):
+   the reader's un-flattening of one entry (the flattened name itself is checked by check_maps) *)
 Definition check_name (c : bool * list str * str * str * str) : bool :=
   let '(is_dim, p, n, flat, abs) := c in
-  str_eqb (flat_name hash0 p n) flat && str_eqb (pathname p n) abs &&
+  str_eqb (pathname p n) abs &&
   (if is_dim then
      let '(g, nm, b) := unflatten_dim_gen true flat abs in
      path_eqb g p && str_eqb nm (match p with [] => n | _ => abs end) && str_eqb b n
@@ -40,11 +41,12 @@ Definition check_name (c : bool * list str * str * str * str) : bool :=
      let '(g, nm, b) := unflatten_var flat abs in
      path_eqb g p && str_eqb nm (match p with [] => n | _ => abs end) && str_eqb b n).
 
-(* the whole map in file order: the model's traversal against the observed attribute *)
+(* the whole map in file order: the model's traversal, with clashing names given a counter,
+   against the observed attribute *)
 Definition pair_eqb (a b : str * str) : bool := str_eqb (fst a) (fst b) && str_eqb (snd a) (snd b).
 Definition check_maps (c : group * list (str * str) * list (str * str)) : bool :=
   let '(root, vm, dm) := c in
-  list_eqb pair_eqb (var_map hash0 [] root) vm && list_eqb pair_eqb (dim_map hash0 [] root) dm.
+  list_eqb pair_eqb (var_map_u hash0 root) vm && list_eqb pair_eqb (dim_map_u hash0 root) dm.
 
 (* ---- the reader's coordinate-variable search ------------------------------------------
    (has_groups, variables, field, dimension, observed coordinate variable) *)
@@ -58,11 +60,12 @@ Definition check_coord_old (c : bool * list rvar * (list str * str) * (list str 
   let '(hg, vars, field, dim, obs) := c in
   oid_eqb (find_coord_old hash0 hg vars field dim) obs.
 
-(* ---- the writer: (group flag, variable name, dimension names, observed acceptance of the
-   visibility check, observed placement: group path and basename) *)
-Definition check_writer (c : bool * str * list str * bool * option (list str * str)) : bool :=
-  let '(grp, ncvar, ncdims, accepted, placed) := c in
-  Bool.eqb (dims_visible grp ncvar ncdims) accepted &&
+(* ---- the writer: (dimensions in the file when the variable is created (as a tree), group flag,
+   variable name, dimension names, observed acceptance of the two checks, observed placement:
+   group path and basename) *)
+Definition check_writer (c : group * bool * str * list str * bool * option (list str * str)) : bool :=
+  let '(root, grp, ncvar, ncdims, accepted, placed) := c in
+  Bool.eqb (writer_accepts root grp ncvar ncdims) accepted &&
   match placed with
   | None => true
   | Some (p, b) =>
